@@ -565,7 +565,11 @@ def run(R):
             "dirty() writes the sentinel (0) the recompute test checks", "dirty() does not reset the refresh time to the sentinel the recompute test checks")
     dec2 = repo.fn("tools.alazy_constant.decorator")
     inits = dict((q.src(n.targets[0]), q.src(n.value)) for n in q.scope_nodes(dec2.node) if isinstance(n, ast.Assign))
-    R.check(inits.get("wrapper.alazy_constant_refresh_time") == "0" and inits.get("wrapper.dirty") == "dirty", "C13.LAZY", dec2.qualname, R.site(dec2),
+    # (starting dirty may be written as a call of dirty() itself, whose body was just checked)
+    calls_dirty = any(isinstance(n, ast.Expr) and isinstance(n.value, ast.Call) and q.call_name(n.value) == "dirty" and not n.value.args for n in q.scope_nodes(dec2.node))
+    starts_dirty = inits.get("wrapper.alazy_constant_refresh_time") == "0" or \
+        (calls_dirty and len(ds) == 1 and q.src(ds[0].targets[0]) == "wrapper.alazy_constant_refresh_time" and q.src(ds[0].value) == "0")
+    R.check(starts_dirty and inits.get("wrapper.dirty") == "dirty", "C13.LAZY", dec2.qualname, R.site(dec2),
             "the constant starts dirty and exposes dirty()", "the constant does not start dirty or does not expose dirty()")
     R.require_min("C13.ARGCOVER", 8)
     R.require_min("C13.STORE-AFTER-SUCCESS", 4)
